@@ -18,9 +18,12 @@ THEOREM_BACKED = ('integer half: intvec_coords_in_square(_q), floatvec_coords_in
                   'exact-arithmetic geometric half for q >= 3: angle_bound_partial, angle_bound_exact (arccos(n.v/(|n||v|))'
                   ' <= 3*(2/(2^q-2)) for the exact octahedral projection and the nearest grid point incl. the repair '
                   'branch), octa_fixed_point (the generic decoder, tied to the Float32 model by '
-                  'coordsToUnitVector_eq_generic, returns v/c), angle_bound_exact_decoded; float half for ANY rounding oracle: '
-                  'float_decoded_unit_length (q = 2..30, every grid point), float_angle_bound (q >= 3), float_angle_bound_q2, '
-                  'float_zero_input')
+                  'coordsToUnitVector_eq_generic, returns v/c), angle_bound_exact_decoded; float half for ANY rounding '
+                  'oracle: float_decoded_unit_length (q = 2..30, every grid point), float_angle_bound (q >= 3), '
+                  "float_angle_bound_q2, float_zero_input; source_canonicalize_is_model / source_isInDiamond_is_model' / "
+                  "source_invertDiamond_is_model' / source_octaDecode_is_model' (CanonicalizeOctahedralCoords, IsInDiamond,"
+                  " InvertDiamond and the canonicalized decoding transform, translated from clang's AST on every run, are "
+                  'the model functions)')
 CORRESPONDENCE_ONLY = ('that the compiled float arithmetic obeys the rounding models of the float theorems '
                        '(float_decoded_unit_length, float_angle_bound, float_angle_bound_q2, float_zero_input) is assumed; the '
                        'allowances those theorems give for binary32/binary64 (10u on the length, 144u + 120uE on the angle, '
